@@ -45,9 +45,15 @@ KNOWN_ID = 'C01-F0'
 def validate_word(xsd_element: Any, k: int, word: list[str], ids: dict[int, int]):
     from xmlschema.validators.exceptions import XMLSchemaChildrenValidationError
     elem = cm.instance(k, word)
-    errs = list(xsd_element.iter_errors(elem))
     out = []
     other = []
+    try:
+        errs = list(xsd_element.iter_errors(elem))
+    except Exception as ex:     # noqa: a foreign exception instead of a verdict: reported as a failing input
+        import xmlschema
+        if isinstance(ex, xmlschema.XMLSchemaException):
+            raise
+        return elem, [], ['ESCAPED:' + type(ex).__name__ + ':' + str(ex)[:120]]
     for e in errs:
         if isinstance(e, XMLSchemaChildrenValidationError) and e.elem is elem:
             out.append([e.index, ids.get(id(e.particle), -1), e.occurs])
@@ -100,7 +106,7 @@ def prepare_batch(args):
         impl = []
         for w in words:
             elem, errs, other = validate_word(xe, k, w, ids)
-            valid = xe.is_valid(elem)
+            valid = False if any(x.startswith('ESCAPED:') for x in other) else xe.is_valid(elem)
             impl.append({'valid': valid, 'errs': errs, 'other': other})
         reqs.append({'n': len(intro.objs), 'model': intro.json, 'words': [cm.word_json(w) for w in words], 'oc': ocj})
         pend.append((ast, words, impl))
